@@ -267,4 +267,85 @@ theorem inv_assign {cw : List Nat} {B : List Int} {st : PState} (h : Inv nrow nc
     rw [List.reverse_cons, paint_snoc, ← h.val]
     simp
 
+/-! ### the picture read through `GetBit` is the reference mapping matrix -/
+
+theorem allBits_length : ∀ cw : List Nat, (allBits cw).length = 8 * cw.length
+  | [] => rfl
+  | v :: vs => by simp [allBits, bitsOf, allBits_length vs]; omega
+
+theorem and_two_pow' (v j : Nat) : v &&& 2 ^ j = if v.testBit j then 2 ^ j else 0 := by
+  apply Nat.eq_of_testBit_eq; intro i
+  rw [Nat.testBit_and, Nat.testBit_two_pow]
+  by_cases hji : j = i
+  · subst hji; cases h : v.testBit j <;> simp
+  · cases h : v.testBit j <;> simp [hji]
+
+theorem mask_ne_zero (v j : Nat) : ((v &&& (1 <<< j)) != 0) = (v / 2 ^ j % 2 == 1) := by
+  rw [Nat.one_shiftLeft, and_two_pow']
+  have h2 : 0 < 2 ^ j := Nat.pow_pos (by decide)
+  have ht : v.testBit j = decide (v / 2 ^ j % 2 = 1) := Nat.testBit_eq_decide_div_mod_eq
+  rw [ht]
+  by_cases h : v / 2 ^ j % 2 = 1
+  · simp [h]
+  · simp [h]
+
+theorem bitsOf_getElem? (v k : Nat) (hk : k < 8) : (bitsOf v)[k]? = some (v / 2 ^ (7 - k) % 2 == 1) := by
+  have : k = 0 ∨ k = 1 ∨ k = 2 ∨ k = 3 ∨ k = 4 ∨ k = 5 ∨ k = 6 ∨ k = 7 := by omega
+  rcases this with rfl | rfl | rfl | rfl | rfl | rfl | rfl | rfl <;> simp [bitsOf]
+
+theorem allBits_getElem? : ∀ (cw : List Nat) (k : Nat), k < 8 * cw.length → (allBits cw)[k]? = some (bitVal cw k == 1)
+  | [], k, h => by simp at h
+  | v :: vs, k, h => by
+    have hb : ∀ x : Int, ((if x = 0 then (0 : Int) else 1) == 1) = !(decide (x = 0)) := by
+      intro x; by_cases hx : x = 0 <;> simp [hx]
+    unfold allBits bitVal
+    by_cases hk : k < 8
+    · rw [List.getElem?_append_left (by simp [bitsOf]; exact hk), bitsOf_getElem? v k hk]
+      have e1 : k / 8 = 0 := by omega
+      have e2 : k % 8 = k := by omega
+      rw [e1, e2]
+      simp only [List.getD_cons_zero]
+      rw [mask_ne_zero]
+      cases (v / 2 ^ (7 - k) % 2 == 1) <;> simp
+    · rw [List.getElem?_append_right (by simp [bitsOf]; omega)]
+      have hlen : (bitsOf v).length = 8 := by simp [bitsOf]
+      rw [hlen, allBits_getElem? vs (k - 8) (by simp at h; omega)]
+      unfold bitVal
+      have e1 : k / 8 = (k - 8) / 8 + 1 := by omega
+      have e2 : k % 8 = (k - 8) % 8 := by omega
+      rw [e1, e2, List.getD_cons_succ]
+
+theorem paint_scatter (cw : List Nat) : ∀ (cells : List Nat) (k : Nat) (B : List Int) (g : Array Bool),
+    B.length = g.size → k + cells.length ≤ 8 * cw.length → (∀ c, (B.getD c (-1) == 1) = g.getD c false) →
+    ∀ c, ((paint cw cells k B).getD c (-1) == 1) = (scatter cells ((allBits cw).drop k) g).getD c false := by
+  intro cells
+  induction cells with
+  | nil => intro k B g _ _ h c; simpa [paint, scatter] using h c
+  | cons c0 cs ih =>
+    intro k B g hlen hk h c
+    simp only [List.length_cons] at hk
+    have hkl : k < (allBits cw).length := by rw [allBits_length]; omega
+    have hd : (allBits cw).drop k = (bitVal cw k == 1) :: (allBits cw).drop (k + 1) := by
+      have hg := allBits_getElem? cw k (by omega)
+      rw [List.getElem?_eq_getElem hkl] at hg
+      injection hg with hg
+      rw [← hg]
+      exact (List.getElem_cons_drop hkl).symm
+    rw [hd]
+    simp only [paint, scatter]
+    apply ih (k + 1) _ _ (by simp [hlen]) (by omega)
+    intro x
+    simp only [List.getD_eq_getElem?_getD, List.getElem?_set, Array.getD_eq_getD_getElem?, Array.getElem?_setIfInBounds]
+    have hx := h x
+    simp only [List.getD_eq_getElem?_getD, Array.getD_eq_getD_getElem?] at hx
+    by_cases hc : c0 = x
+    · subst hc
+      by_cases hl : c0 < B.length
+      · have hl' : c0 < g.size := by omega
+        simp [hl, hl']
+      · have hl' : ¬ c0 < g.size := by omega
+        simp [hl, hl']
+    · simp only [hc, if_false]
+      exact hx
+
 end Gzx.K08c
